@@ -67,13 +67,16 @@ fn bid(b: u8) -> BlobId { BlobId::from(vh::mk_id(b)) }
 //@ timeout: 1200
 //@ mem: 12
 //@ kernel: BasicPacker::{new, add_raw, write_data, has, is_empty, write_header, take_data}, IndexPack::{add, pack_size}, PackHeaderRef::{from_index_pack, size, pack_size}, HeaderEntry::{from_blob, length}, PackSizer::add_size
-//@ bound: two add_raw calls with blobs of 3 and 2 symbolic bytes (leaked static Bytes), blob ids symbolic in a 3-element domain (so "already in this pack" occurs), symbolic uncompressed lengths; then write_header with a header of the computed size (36 or 73/77/81 bytes, symbolic content) and take_data; unwind 84
+//@ bound: two add_raw calls with blobs of 3 and 2 symbolic bytes (leaked static Bytes), blob ids symbolic in a 3-element domain (so "already in this pack" occurs), symbolic uncompressed lengths; then write_header with a header of the computed size (36 or 73/77/81 bytes, symbolic content) and take_data; unwind 36
 //@ oracle: the index lists the blobs in insertion order at contiguous offsets from 0 with the data's lengths; the pack bytes at [offset, offset+length) are exactly the data added; an id already in the open pack adds nothing; write_header appends the header and then the 4 bytes the length encoder returns; IndexPack::pack_size() == number of bytes in the file when the header has PackHeaderRef::size() bytes; take_data resets size and count and returns exactly file and index
 //@ stub: PackHeaderLength::to_binary -> arbitrary 4 bytes (binrw out of reach, DESIGN C08); SystemTime::now; Backtrace::capture; fmt::format
 //@ assume: blobs are non-empty
 //@ outside: the binrw byte encoding of header entries and of the length field; which bytes the threaded Actor hashes and writes; repair_index
 #[kani::proof]
-#[kani::unwind(84)]
+#[kani::unwind(36)]
+#[kani::stub(crate::error::RusticError::new, crate::error::verif_harness::stub_rustic_new)]
+#[kani::stub(crate::error::RusticError::attach_context, crate::error::verif_harness::stub_attach_context)]
+#[kani::stub(crate::error::RusticError::attach_source, crate::error::verif_harness::stub_attach_source)]
 #[kani::stub(std::time::SystemTime::now, crate::error::verif_harness::stub_systime_now)]
 #[kani::stub(std::backtrace::Backtrace::capture, crate::error::verif_harness::stub_backtrace_capture)]
 #[kani::stub(crate::error::RusticError::new, crate::error::verif_harness::stub_rustic_new)]
